@@ -184,7 +184,14 @@ def run(tier):
         win = int([3, 5][k % 2])
         ir, ic = win + int(rng.randint(0, 3)), win + int(rng.randint(1, 5))
         img = rng.randint(0, 4, size=(ir, ic))
-        left = build.make_image(img, disp=(dmin, dmin + 1))
+        tenths = (k % 3 == 1)
+        if tenths:
+            # reflectance-like radiometry (tenths, not exactly representable) with a flat patch covering whole windows: the variance
+            # E[x^2] - E[x]^2 of a constant window is 0 up to rounding - the standard deviation is 0, not NaN
+            ir, ic = win + 3, win + 4
+            img = rng.randint(0, 4, size=(ir, ic))
+            img[:win + 1, :win + 2] = 3
+        left = build.make_image(img / 10.0 if tenths else img, disp=(dmin, dmin + 1))
         cvs = build.make_cv(np.zeros((ir, ic, 2), dtype=np.float32), dmin=dmin, window_size=win)
         try:
             obj = cvc.AbstractCostVolumeConfidence(confidence_method="std_intensity", indicator=suffix)
@@ -192,8 +199,9 @@ def run(tier):
             names = list(map(str, cv2.coords["indicator"].data))
             n += 1
             cid = f"c{n}"
+            # (std of x / 10 is std of x divided by 10: the band of the tenths image is compared at scale 1000 with the integer image)
             cases.append({"id": cid, "step": "confidence", "method": "std_intensity", "normalized": False, "rows": ir, "cols": ic, "win": win, "s": 1, "band": 1,
-                          "L": [enc_int(img)], "out": {"q": enc_scaled(cv2["confidence_measure"].data[:, :, 0], 100, tol=0.5001),
+                          "L": [enc_int(img)], "out": {"q": enc_scaled(cv2["confidence_measure"].data[:, :, 0], 1000 if tenths else 100, tol=0.5001),
                                                         "bands_ok": len(names) == 1 and names[0].startswith("confidence_from_") and "std" in names[0] and names[0].endswith(suffix),
                                                         "frame_ok": True}})
             meta[cid] = {"method": "std_intensity", "win": win}
